@@ -139,28 +139,37 @@ pub(crate) fn inv_reg(b: &Broker) -> bool {
     ok
 }
 
-/// A small registry world: connections 0 and 1 (both present), up to two objects with uuids from
-/// the pool {0,1} (distinct), cookies {10,11}, symbolic owners; up to two services on them with
-/// service uuids from {0,1}, cookies {20,21}.
+/// A small registry world (fits CAP = 2): connections 0 and 1 (both present, each peer possibly
+/// gone), up to `max_objs` (<= 2) objects with uuids from the pool {0,1} (distinct), cookies
+/// {10,11}, symbolic owners; up to `max_svcs` (<= 2) services on them with service uuids from
+/// {0,1}, cookies {20,21}.
 pub(crate) fn registry_world(max_objs: u8, max_svcs: u8) -> World {
     let mut w = new_world();
     add_conn(&mut w, 0);
     add_conn(&mut w, 1);
     let mut have = [false; 2];
-    let mut i = 0u8;
-    while i < 2 {
-        if i < max_objs && kani::any() {
-            add_object(&mut w, i, 10 + i, any_below(2));
-            have[i as usize] = true;
+    if max_objs >= 1 && kani::any() {
+        // the first object may carry either uuid
+        let u = any_below(2);
+        add_object(&mut w, u, 10 + u, any_below(2));
+        if u == 0 {
+            have[0] = true;
+        } else {
+            have[1] = true;
         }
-        i += 1;
+        if max_objs >= 2 && kani::any() {
+            let u2 = 1 - u;
+            add_object(&mut w, u2, 10 + u2, any_below(2));
+            have[0] = true;
+            have[1] = true;
+        }
     }
     let mut used: Option<(u8, u8)> = None;
     let mut j = 0u8;
     while j < 2 {
         if j < max_svcs && kani::any() {
             let o = any_below(2);
-            kani::assume(have[o as usize]);
+            kani::assume(if o == 0 { have[0] } else { have[1] });
             let su = any_below(2);
             // (object, service uuid) pairs are unique
             if let Some(p) = used {
@@ -220,8 +229,7 @@ mod reg_object {
     #[kani::unwind(18)]
     #[kani::stub(aldrin_core::ObjectCookie::new_v4, fresh_obj_cookie)]
     fn q_c03_c11_create_object() {
-        let mut w = registry_world(2, 1);
-        assert!(inv_reg(&w.b));
+        let mut w = registry_world(1, 0);
         let who = any_below(3); // 2 = a connection the broker does not know
         let u = any_below(2);
         let serial: u32 = kani::any();
@@ -268,7 +276,7 @@ mod reg_object {
     #[kani::proof]
     #[kani::unwind(18)]
     fn q_c03_c11_destroy_object() {
-        let mut w = registry_world(2, 2);
+        let mut w = registry_world(1, 2);
         let who = any_below(3);
         let c: u8 = kani::any();
         kani::assume(c == 10 || c == 11 || c == 12);
@@ -320,4 +328,954 @@ mod reg_object {
         kani::cover!(who < 2 && !send_fails(who) && !live0);
         std::mem::forget(w);
     }
+
+    #[cfg(verif_replay)]
+    include!("/verif/.cache/replay/broker__verif__reg_object.rs");
+}
+
+#[cfg(any(verif_unit = "all", verif_unit = "reg_service", verif_unit = "reg_service_t"))]
+mod reg_service {
+    use super::*;
+
+    /// outcome the state dictates, in the code's order InvalidObject > DuplicateService > ForeignObject
+    fn expected_create_service(w: &World, who: u8, oc: u8, su: u8) -> u8 {
+        // 0 ok, 1 invalid object, 2 duplicate, 3 foreign
+        let Some(u) = w.b.obj_uuids.get(&obj_cookie(oc)).copied() else { return 1 };
+        if w.b.svcs.contains_key(&(u, svc_uuid(su))) {
+            return 2;
+        }
+        if w.b.objs.get(&u).unwrap().conn_id().0 != who {
+            return 3;
+        }
+        0
+    }
+
+    #[kani::proof]
+    #[kani::unwind(18)]
+    #[kani::stub(aldrin_core::ServiceCookie::new_v4, fresh_svc_cookie)]
+    fn q_c03_c11_create_service() {
+        let mut w = registry_world(2, 1);
+        let who = any_below(2);
+        set_send_fails(who, false);
+        let oc: u8 = kani::any();
+        kani::assume(oc >= 10 && oc <= 12);
+        let su = any_below(2);
+        let serial: u32 = kani::any();
+        let version: u32 = kani::any();
+        let expect = expected_create_service(&w, who, oc, su);
+        let n_svcs0 = w.b.svcs.len();
+        let r = w.b.create_service(&mut w.st, &conn(who), CreateService { serial, object_cookie: obj_cookie(oc), uuid: svc_uuid(su), version });
+        assert!(r.is_ok() && log_len() == 1 && log(0).to == who, "exactly one reply, to the requester");
+        let Message::CreateServiceReply(rep) = &log(0).msg else { panic!("wrong reply kind") };
+        assert!(rep.serial == serial);
+        match rep.result {
+            CreateServiceResult::Ok(k) => {
+                assert!(expect == 0, "ok exactly when the object is live, owned by the requester and has no such service");
+                assert!(k == svc_cookie(fresh()));
+                assert!(w.b.svcs.len() == n_svcs0 + 1);
+                let (oid, su2, info) = w.b.svc_uuids.get(&k).unwrap();
+                assert!(oid.cookie == obj_cookie(oc) && *su2 == svc_uuid(su) && info.version() == version);
+                let q = stv::create_service(&w.st);
+                assert!(q.len() == 1 && q[0].cookie == k && q[0].uuid == svc_uuid(su) && q[0].object_id == *oid);
+            }
+            CreateServiceResult::InvalidObject => assert!(expect == 1),
+            CreateServiceResult::DuplicateService => assert!(expect == 2),
+            CreateServiceResult::ForeignObject => assert!(expect == 3),
+        }
+        if expect != 0 {
+            assert!(w.b.svcs.len() == n_svcs0 && stv::create_service(&w.st).is_empty());
+        }
+        assert!(inv_reg(&w.b));
+        kani::cover!(expect == 0);
+        kani::cover!(expect == 1);
+        kani::cover!(expect == 2);
+        kani::cover!(expect == 3);
+        std::mem::forget(w);
+    }
+
+    /// When the reply cannot be delivered nothing may stay behind.
+    #[kani::proof]
+    #[kani::unwind(18)]
+    #[kani::stub(aldrin_core::ServiceCookie::new_v4, fresh_svc_cookie)]
+    fn q_c03_c11_create_service_reply_fails() {
+        let mut w = registry_world(2, 1);
+        let who = any_below(2);
+        set_send_fails(who, true);
+        let oc: u8 = kani::any();
+        kani::assume(oc >= 10 && oc <= 12);
+        let su = any_below(2);
+        let n_svcs0 = w.b.svcs.len();
+        let r = w.b.create_service(&mut w.st, &conn(who), CreateService { serial: kani::any(), object_cookie: obj_cookie(oc), uuid: svc_uuid(su), version: kani::any() });
+        assert!(r.is_err() && log_len() == 0);
+        assert!(w.b.svcs.len() == n_svcs0 && w.b.svc_uuids.len() == n_svcs0, "no service is registered for a requester that is gone");
+        assert!(inv_reg(&w.b));
+        std::mem::forget(w);
+    }
+
+    #[kani::proof]
+    #[kani::unwind(18)]
+    fn q_c03_c11_destroy_service() {
+        let mut w = registry_world(2, 2);
+        let who = any_below(3);
+        let k: u8 = kani::any();
+        kani::assume(k >= 20 && k <= 22);
+        let serial: u32 = kani::any();
+        let live0 = svc_live(&w, k);
+        let owner0 = w.b.svc_uuids.get(&svc_cookie(k)).map(|(oid, _, _)| w.b.objs.get(&oid.uuid).unwrap().conn_id().0);
+        let other = if k == 20 { 21 } else { 20 };
+        let other_live0 = svc_live(&w, other);
+        let n_objs0 = w.b.objs.len();
+        let r = w.b.destroy_service(&mut w.st, &conn(who), DestroyService { serial, cookie: svc_cookie(k) });
+        if who == 2 {
+            assert!(r.is_ok() && log_len() == 0);
+        } else if send_fails(who) {
+            assert!(r.is_err() && log_len() == 0 && svc_live(&w, k) == live0);
+        } else {
+            assert!(r.is_ok() && log_len() == 1 && log(0).to == who);
+            let Message::DestroyServiceReply(rep) = &log(0).msg else { panic!("wrong reply kind") };
+            assert!(rep.serial == serial);
+            match rep.result {
+                DestroyServiceResult::Ok => {
+                    assert!(live0 && owner0 == Some(who), "only the owner of the object can destroy its service");
+                    assert!(!svc_live(&w, k));
+                    let q = stv::destroy_service(&w.st);
+                    assert!(q.len() == 1 && q[0].cookie == svc_cookie(k));
+                }
+                DestroyServiceResult::InvalidService => assert!(!live0),
+                DestroyServiceResult::ForeignObject => assert!(live0 && owner0 != Some(who) && svc_live(&w, k)),
+            }
+            assert!(svc_live(&w, other) == other_live0, "other services untouched");
+            assert!(w.b.objs.len() == n_objs0, "objects untouched");
+        }
+        assert!(inv_reg(&w.b));
+        kani::cover!(who < 2 && !send_fails(who) && live0 && owner0 == Some(who));
+        kani::cover!(who < 2 && !send_fails(who) && live0 && owner0 != Some(who));
+        std::mem::forget(w);
+    }
+
+    /// Queries succeed exactly while the service is live.
+    #[kani::proof]
+    #[kani::unwind(18)]
+    fn q_c03_c11_query_service_version() {
+        let mut w = registry_world(1, 1);
+        let who = any_below(2);
+        set_send_fails(who, false);
+        let k: u8 = kani::any();
+        kani::assume(k >= 20 && k <= 21);
+        let serial: u32 = kani::any();
+        let live = w.b.svc_uuids.get(&svc_cookie(k)).map(|(_, _, i)| i.version());
+        let r = w.b.query_service_version(&conn(who), QueryServiceVersion { serial, cookie: svc_cookie(k) });
+        assert!(r.is_ok() && log_len() == 1 && log(0).to == who);
+        let Message::QueryServiceVersionReply(rep) = &log(0).msg else { panic!("wrong reply kind") };
+        assert!(rep.serial == serial);
+        match rep.result {
+            QueryServiceVersionResult::Ok(v) => assert!(live == Some(v)),
+            QueryServiceVersionResult::InvalidService => assert!(live.is_none()),
+        }
+        assert!(inv_reg(&w.b));
+        kani::cover!(live.is_some());
+        kani::cover!(live.is_none());
+        std::mem::forget(w);
+    }
+
+    #[cfg(verif_replay)]
+    include!("/verif/.cache/replay/broker__verif__reg_service.rs");
+}
+
+// =================================================================================================
+// C05 / C11: channel handlers
+// =================================================================================================
+
+/// One channel (cookie byte 30) in an arbitrary state satisfying the `Channel` invariant, with the
+/// owners' `senders` / `receivers` sets consistent with it; connections 0, 1, 2 all present.
+pub(crate) fn channel_world() -> World {
+    let mut w = new_world();
+    add_conn(&mut w, 0);
+    add_conn(&mut w, 1);
+    add_conn(&mut w, 2);
+    if kani::any() {
+        let ch = chv::any_channel();
+        if let Some((o, _)) = chv::sender_claimed(&ch) {
+            csv::senders_mut(w.b.conns.get_mut(&o).unwrap()).insert(chan_cookie(30));
+        }
+        if let Some((o, _)) = chv::receiver_claimed(&ch) {
+            csv::receivers_mut(w.b.conns.get_mut(&o).unwrap()).insert(chan_cookie(30));
+        }
+        w.b.channels.insert(chan_cookie(30), ch);
+    }
+    let f: u8 = kani::any();
+    kani::assume(f != 30);
+    set_fresh(f);
+    w
+}
+
+/// channel map and the per-connection end sets agree, and every stored channel satisfies `Inv`
+pub(crate) fn inv_chan(b: &Broker) -> bool {
+    let mut ok = true;
+    let mut i = 0;
+    while i < CAP {
+        if let Some((cookie, ch)) = &b.channels.slots[i] {
+            ok &= chv::inv(ch);
+            if let Some((o, _)) = chv::sender_claimed(ch) {
+                ok &= b.conns.get(&o).map(|c| csv::senders(c).contains(cookie)).unwrap_or(false);
+            }
+            if let Some((o, _)) = chv::receiver_claimed(ch) {
+                ok &= b.conns.get(&o).map(|c| csv::receivers(c).contains(cookie)).unwrap_or(false);
+            }
+        }
+        if let Some((cid, c)) = &b.conns.slots[i] {
+            let mut j = 0;
+            while j < CAP {
+                if let Some(k) = &csv::senders(c).slots[j] {
+                    ok &= b.channels.get(k).map(|ch| chv::sender_claimed(ch).map(|(o, _)| o == *cid).unwrap_or(false)).unwrap_or(false);
+                }
+                if let Some(k) = &csv::receivers(c).slots[j] {
+                    ok &= b.channels.get(k).map(|ch| chv::receiver_claimed(ch).map(|(o, _)| o == *cid).unwrap_or(false)).unwrap_or(false);
+                }
+                j += 1;
+            }
+        }
+        i += 1;
+    }
+    ok
+}
+
+fn chan_ends(w: &World) -> Option<(Option<(ConnectionId, u32)>, Option<(ConnectionId, u32)>, bool, bool)> {
+    w.b.channels.get(&chan_cookie(30)).map(|ch| {
+        (
+            chv::sender_claimed(ch),
+            chv::receiver_claimed(ch),
+            chv::sender_unclaimed(ch),
+            chv::receiver_unclaimed(ch),
+        )
+    })
+}
+
+fn count_kind_to(to: u8, pred: impl Fn(&Message) -> bool) -> usize {
+    let mut n = 0;
+    let mut i = 0;
+    while i < LOG_CAP {
+        if i < log_len() && log(i).to == to && pred(&log(i).msg) {
+            n += 1;
+        }
+        i += 1;
+    }
+    n
+}
+
+#[cfg(any(verif_unit = "all", verif_unit = "chan_handlers", verif_unit = "chan_handlers_t"))]
+mod chan_handlers {
+    use super::*;
+
+    #[kani::proof]
+    #[kani::unwind(18)]
+    fn q_c05_c11_send_item() {
+        let mut w = channel_world();
+        assert!(inv_chan(&w.b));
+        let who = any_conn_tag();
+        let cookie = if kani::any() { chan_cookie(30) } else { chan_cookie(31) };
+        let pre = if cookie == chan_cookie(30) { chan_ends(&w) } else { None };
+        let fails_who = send_fails(who);
+        let value = aldrin_core::SerializedValue::serialize(7u8).unwrap();
+        let r = w.b.send_item(&mut w.st, &conn(who), SendItem { cookie, value });
+        match pre {
+            None => assert!(r.is_ok() && log_len() == 0, "unknown channel: ignored"),
+            Some((s0, r0, _, r_unclaimed)) => {
+                let sender_ok = s0.map(|(o, _)| o == conn(who)).unwrap_or(false);
+                if !sender_ok {
+                    assert!(r.is_ok() && log_len() == 0, "items from anyone but the sender's owner are dropped");
+                    assert!(chan_ends(&w).map(|(a, b, _, _)| (a, b)) == Some((s0, r0)));
+                } else if let Some((ro, rc)) = r0 {
+                    let (_, sc) = s0.unwrap();
+                    if sc > 0 {
+                        // within the announced capacity: forwarded exactly once, payload unchanged
+                        let fwd = count_kind_to(ro.0, |m| matches!(m, Message::ItemReceived(_)));
+                        assert!(fwd == if send_fails(ro.0) { 0 } else { 1 });
+                        assert!(rc > 0, "never forwarded beyond what the receiver granted");
+                        let topup = count_kind_to(who, |m| matches!(m, Message::AddChannelCapacity(_)));
+                        assert!(topup <= 1);
+                        assert!(chan_ends(&w).is_some(), "a sender within its capacity is never cut off");
+                        let (s1, r1, _, _) = chan_ends(&w).unwrap();
+                        assert!(s1.map(|(o, _)| o) == Some(conn(who)) && r1 == Some((ro, rc - 1)));
+                        assert!(r.is_ok() || (fails_who && topup == 0));
+                    } else {
+                        // beyond the capacity: nothing forwarded, only the sender's end is closed
+                        assert!(r.is_ok());
+                        assert!(count_kind_to(ro.0, |m| matches!(m, Message::ItemReceived(_))) == 0);
+                        let told = count_kind_to(ro.0, |m| matches!(m, Message::ChannelEndClosed(c) if c.end == ChannelEnd::Sender));
+                        assert!(told == if send_fails(ro.0) { 0 } else { 1 }, "the receiver is told once that the sender end is closed");
+                        let (s1, r1, _, _) = chan_ends(&w).unwrap();
+                        assert!(s1.is_none() && r1 == Some((ro, rc)), "the receiver keeps its end");
+                    }
+                } else if r_unclaimed {
+                    // receiver not claimed yet: sending is a protocol violation, the channel goes away
+                    assert!(r.is_ok());
+                    assert!(chan_ends(&w).is_none());
+                } else {
+                    // receiver closed: item dropped
+                    assert!(r.is_ok() && log_len() == 0);
+                }
+            }
+        }
+        assert!(inv_chan(&w.b), "channel bookkeeping stays consistent");
+        kani::cover!(pre.is_some() && count_kind_to(0, |m| matches!(m, Message::ItemReceived(_))) == 1);
+        kani::cover!(pre.is_some() && count_kind_to(who, |m| matches!(m, Message::AddChannelCapacity(_))) == 1);
+        std::mem::forget(w);
+    }
+
+    #[kani::proof]
+    #[kani::unwind(18)]
+    fn q_c05_c11_add_channel_capacity() {
+        let mut w = channel_world();
+        let who = any_conn_tag();
+        let cookie = if kani::any() { chan_cookie(30) } else { chan_cookie(31) };
+        let capacity: u32 = kani::any();
+        let pre = if cookie == chan_cookie(30) { chan_ends(&w) } else { None };
+        w.b.add_channel_capacity(&mut w.st, &conn(who), AddChannelCapacity { cookie, capacity });
+        match pre {
+            None => assert!(log_len() == 0),
+            Some((s0, r0, _, _)) => {
+                let owner_grant = capacity > 0 && r0.map(|(o, _)| o == conn(who)).unwrap_or(false);
+                if !owner_grant {
+                    assert!(log_len() == 0, "grants of 0 or by anyone but the receiver's owner are ignored");
+                    assert!(chan_ends(&w).map(|(a, b, _, _)| (a, b)) == Some((s0, r0)), "and change nothing");
+                } else {
+                    let (ro, rc) = r0.unwrap();
+                    match rc.checked_add(capacity) {
+                        None => {
+                            // overflow closes only the receiver
+                            match s0 {
+                                Some((so, sc)) => {
+                                    let (s1, r1, _, _) = chan_ends(&w).unwrap();
+                                    assert!(s1 == Some((so, sc)) && r1.is_none());
+                                    let told = count_kind_to(so.0, |m| matches!(m, Message::ChannelEndClosed(c) if c.end == ChannelEnd::Receiver));
+                                    assert!(told == if send_fails(so.0) { 0 } else { 1 });
+                                }
+                                None => assert!(chan_ends(&w).is_none()),
+                            }
+                            assert!(!csv::receivers(w.b.conns.get(&ro).unwrap()).contains(&chan_cookie(30)));
+                        }
+                        Some(nr) => {
+                            let (s1, r1, _, _) = chan_ends(&w).unwrap();
+                            assert!(r1 == Some((ro, nr)));
+                            if let Some((so, sc)) = s0 {
+                                let ann = count_kind_to(so.0, |m| matches!(m, Message::AddChannelCapacity(_)));
+                                if sc <= 4 {
+                                    assert!(s1 == Some((so, nr)), "a sender running low is topped up to the receiver's level");
+                                    assert!(ann == if send_fails(so.0) { 0 } else { 1 });
+                                } else {
+                                    assert!(s1 == Some((so, sc)) && ann == 0);
+                                }
+                            }
+                        }
+                    }
+                }
+            }
+        }
+        assert!(inv_chan(&w.b));
+        std::mem::forget(w);
+    }
+
+    #[kani::proof]
+    #[kani::unwind(18)]
+    fn q_c05_c11_claim_channel_end() {
+        let mut w = channel_world();
+        let who = any_conn_tag();
+        set_send_fails(who, false);
+        let cookie = if kani::any() { chan_cookie(30) } else { chan_cookie(31) };
+        let serial: u32 = kani::any();
+        let cap: u32 = kani::any();
+        let end = if kani::any() { ChannelEndWithCapacity::Sender } else { ChannelEndWithCapacity::Receiver(cap) };
+        let pre = if cookie == chan_cookie(30) { chan_ends(&w) } else { None };
+        let r = w.b.claim_channel_end(&mut w.st, &conn(who), ClaimChannelEnd { serial, cookie, end });
+        assert!(r.is_ok());
+        let replies = count_kind_to(who, |m| matches!(m, Message::ClaimChannelEndReply(rep) if rep.serial == serial));
+        assert!(replies == 1, "exactly one reply to the claimer");
+        let Some(rep) = (0..LOG_CAP).filter(|&i| i < log_len()).find_map(|i| match &log(i).msg {
+            Message::ClaimChannelEndReply(rep) => Some(rep.result),
+            _ => None,
+        }) else { panic!("no reply") };
+        match pre {
+            None => assert!(rep == ClaimChannelEndResult::InvalidChannel && log_len() == 1),
+            Some((s0, r0, s_un, r_un)) => {
+                let is_sender = matches!(end, ChannelEndWithCapacity::Sender);
+                let (this_un, this_claimed, peer) = if is_sender { (s_un, s0.is_some(), r0) } else { (r_un, r0.is_some(), s0) };
+                if this_un {
+                    // an end can be claimed once; the peer is told exactly once
+                    let (po, pc) = peer.unwrap();
+                    if is_sender {
+                        assert!(rep == ClaimChannelEndResult::SenderClaimed(pc), "the claimer learns the receiver's capacity");
+                    } else {
+                        assert!(rep == ClaimChannelEndResult::ReceiverClaimed);
+                    }
+                    let told = count_kind_to(po.0, |m| matches!(m, Message::ChannelEndClaimed(c) if c.cookie == chan_cookie(30)));
+                    assert!(told == if send_fails(po.0) { 0 } else { 1 });
+                    let (s1, r1, _, _) = chan_ends(&w).unwrap();
+                    if is_sender {
+                        assert!(s1 == Some((conn(who), pc)) && r1 == r0);
+                    } else {
+                        assert!(r1 == Some((conn(who), cap)) && s1 == Some((po, cap)));
+                    }
+                } else if this_claimed {
+                    assert!(rep == ClaimChannelEndResult::AlreadyClaimed);
+                    assert!(chan_ends(&w).map(|(a, b, _, _)| (a, b)) == Some((s0, r0)));
+                } else {
+                    assert!(rep == ClaimChannelEndResult::InvalidChannel);
+                }
+            }
+        }
+        assert!(inv_chan(&w.b));
+        std::mem::forget(w);
+    }
+
+    #[kani::proof]
+    #[kani::unwind(18)]
+    fn q_c05_c11_close_channel_end() {
+        let mut w = channel_world();
+        let who = any_conn_tag();
+        set_send_fails(who, false);
+        let cookie = if kani::any() { chan_cookie(30) } else { chan_cookie(31) };
+        let serial: u32 = kani::any();
+        let end = chv::any_end();
+        let pre = if cookie == chan_cookie(30) { chan_ends(&w) } else { None };
+        let r = w.b.close_channel_end(&mut w.st, &conn(who), CloseChannelEnd { serial, cookie, end });
+        assert!(r.is_ok());
+        let Some(rep) = (0..LOG_CAP).filter(|&i| i < log_len()).find_map(|i| match &log(i).msg {
+            Message::CloseChannelEndReply(rep) if log(i).to == who && rep.serial == serial => Some(rep.result),
+            _ => None,
+        }) else { panic!("no reply") };
+        match pre {
+            None => assert!(rep == CloseChannelEndResult::InvalidChannel && log_len() == 1),
+            Some((s0, r0, s_un, r_un)) => {
+                let (this, this_un, other) = match end {
+                    ChannelEnd::Sender => (s0, s_un, r0),
+                    ChannelEnd::Receiver => (r0, r_un, s0),
+                };
+                let allowed = this_un || this.map(|(o, _)| o == conn(who)).unwrap_or(false);
+                if allowed {
+                    assert!(rep == CloseChannelEndResult::Ok);
+                    match other {
+                        Some((po, _)) => {
+                            let told = count_kind_to(po.0, |m| matches!(m, Message::ChannelEndClosed(c) if c.end == end));
+                            // when claimer and peer are the same connection it also got the reply
+                            assert!(told == if send_fails(po.0) { 0 } else { 1 }, "the peer is told exactly once");
+                            let (s1, r1, _, _) = chan_ends(&w).unwrap();
+                            match end {
+                                ChannelEnd::Sender => assert!(s1.is_none() && r1 == r0),
+                                ChannelEnd::Receiver => assert!(r1.is_none() && s1 == s0),
+                            }
+                        }
+                        None => assert!(chan_ends(&w).is_none(), "no claimed end left: the channel is removed"),
+                    }
+                } else if this.is_some() {
+                    assert!(rep == CloseChannelEndResult::ForeignChannel, "only the owner can close a claimed end");
+                    assert!(chan_ends(&w).map(|(a, b, _, _)| (a, b)) == Some((s0, r0)) && log_len() == 1);
+                } else {
+                    assert!(rep == CloseChannelEndResult::InvalidChannel && log_len() == 1);
+                }
+            }
+        }
+        assert!(inv_chan(&w.b));
+        std::mem::forget(w);
+    }
+
+    #[kani::proof]
+    #[kani::unwind(18)]
+    #[kani::stub(aldrin_core::ChannelCookie::new_v4, fresh_chan_cookie)]
+    fn q_c05_c11_create_channel() {
+        let mut w = channel_world();
+        let who = any_conn_tag();
+        let serial: u32 = kani::any();
+        let cap: u32 = kani::any();
+        let end = if kani::any() { ChannelEndWithCapacity::Sender } else { ChannelEndWithCapacity::Receiver(cap) };
+        kani::assume(w.b.channels.len() < 2);
+        let r = w.b.create_channel(&conn(who), CreateChannel { serial, end });
+        if send_fails(who) {
+            assert!(r.is_err());
+        } else {
+            assert!(r.is_ok() && log_len() == 1 && log(0).to == who);
+            let Message::CreateChannelReply(rep) = &log(0).msg else { panic!("wrong reply") };
+            assert!(rep.serial == serial && rep.cookie == chan_cookie(fresh()));
+        }
+        let ch = w.b.channels.get(&chan_cookie(fresh())).unwrap();
+        match end {
+            ChannelEndWithCapacity::Sender => assert!(chv::sender_claimed(ch) == Some((conn(who), 0)) && chv::receiver_unclaimed(ch)),
+            ChannelEndWithCapacity::Receiver(c) => assert!(chv::receiver_claimed(ch) == Some((conn(who), c)) && chv::sender_unclaimed(ch)),
+        }
+        assert!(inv_chan(&w.b));
+        std::mem::forget(w);
+    }
+
+    #[cfg(verif_replay)]
+    include!("/verif/.cache/replay/broker__verif__chan_handlers.rs");
+}
+
+// =================================================================================================
+// C12: per-handler version gates; C11: wrong-direction messages
+// =================================================================================================
+
+/// One connection (tag 0, peer alive) with an arbitrary negotiated version, empty bus.
+pub(crate) fn gate_world() -> World {
+    let mut w = new_world();
+    add_conn_ok(&mut w, 0);
+    set_fresh(0xf0);
+    w
+}
+
+pub(crate) fn minor_of(w: &World, tag: u8) -> u32 {
+    version_of(w, tag).minor()
+}
+
+/// nothing was registered anywhere (the gate lemmas run on an otherwise empty bus)
+pub(crate) fn bus_is_empty(w: &World) -> bool {
+    w.b.objs.is_empty()
+        && w.b.obj_uuids.is_empty()
+        && w.b.svcs.is_empty()
+        && w.b.svc_uuids.is_empty()
+        && w.b.channels.is_empty()
+        && w.b.bus_listeners.is_empty()
+        && smv::elems(&w.b.function_calls).is_empty()
+        && csv::is_blank(w.b.conns.get(&conn(0)).unwrap())
+        && !w.st.has_work_left()
+}
+
+fn small_value() -> SerializedValue {
+    SerializedValue::serialize(7u8).unwrap()
+}
+
+#[cfg(any(verif_unit = "all", verif_unit = "gates", verif_unit = "gates_t"))]
+mod gates {
+    use super::*;
+
+    /// A gated handler closes the connection (`Err`) iff its negotiated version is below the gate,
+    /// and then nothing was sent and nothing changed; at or above the gate the message is handled
+    /// (here: answered "invalid ..."/ignored, since the bus is empty) and the connection stays.
+    macro_rules! gate {
+        ($name:ident, $gate:expr, |$w:ident| $call:expr) => {
+            #[kani::proof]
+            #[kani::unwind(18)]
+            fn $name() {
+                let mut $w = gate_world();
+                let minor = minor_of(&$w, 0);
+                let r: Result<(), ()> = $call;
+                if minor < $gate {
+                    assert!(r.is_err(), "a message newer than the negotiated version closes the connection");
+                    assert!(log_len() == 0, "and is not answered");
+                } else {
+                    assert!(r.is_ok(), "at or above the gate the message is accepted");
+                }
+                assert!(bus_is_empty(&$w), "no state is created either way on an empty bus");
+                kani::cover!(minor < $gate);
+                kani::cover!(minor >= $gate);
+                std::mem::forget($w);
+            }
+        };
+    }
+
+    gate!(q_c12_c11_gate_call_function2, 19, |w| w.b.call_function2(&mut w.st, &conn(0), CallFunction2 {
+        serial: kani::any(), service_cookie: svc_cookie(any_below(3)), function: kani::any(), version: None, value: small_value() }));
+    gate!(q_c12_c11_gate_abort_function_call, 16, |w| w.b.abort_function_call(&mut w.st, &conn(0), AbortFunctionCall { serial: kani::any() }));
+    gate!(q_c12_c11_gate_register_introspection, 17, |w| w.b.register_introspection(&conn(0), RegisterIntrospection { value: small_value() }));
+    gate!(q_c12_c11_gate_query_introspection, 17, |w| w.b.query_introspection(&mut w.st, &conn(0), QueryIntrospection {
+        serial: kani::any(), type_id: unsafe { std::mem::transmute::<[u8; 16], aldrin_core::TypeId>([3; 16]) } }));
+    gate!(q_c12_c11_gate_create_service2, 17, |w| w.b.create_service2(&mut w.st, &conn(0), CreateService2 {
+        serial: kani::any(), object_cookie: obj_cookie(any_below(3)), uuid: svc_uuid(0), value: small_value() }));
+    gate!(q_c12_c11_gate_query_service_info, 17, |w| w.b.query_service_info(&conn(0), QueryServiceInfo { serial: kani::any(), cookie: svc_cookie(any_below(3)) }));
+    gate!(q_c12_c11_gate_subscribe_service, 18, |w| w.b.subscribe_service(&conn(0), SubscribeService { serial: kani::any(), service_cookie: svc_cookie(any_below(3)) }));
+    gate!(q_c12_c11_gate_unsubscribe_service, 18, |w| w.b.unsubscribe_service(&conn(0), UnsubscribeService { service_cookie: svc_cookie(any_below(3)) }));
+    gate!(q_c12_c11_gate_subscribe_all_events, 18, |w| {
+        let serial: u32 = kani::any();
+        w.b.subscribe_all_events(&conn(0), SubscribeAllEvents { serial: Some(serial), service_cookie: svc_cookie(any_below(3)) })
+    });
+    gate!(q_c12_c11_gate_unsubscribe_all_events, 18, |w| w.b.unsubscribe_all_events(&conn(0), UnsubscribeAllEvents {
+        serial: if kani::any() { Some(kani::any()) } else { None }, service_cookie: svc_cookie(any_below(3)) }));
+
+    /// Without the introspection feature a `QueryIntrospectionReply` always closes the sender.
+    #[kani::proof]
+    #[kani::unwind(18)]
+    fn q_c12_c11_query_introspection_reply_rejected() {
+        let mut w = gate_world();
+        let r = w.b.query_introspection_reply(&mut w.st, &conn(0), QueryIntrospectionReply {
+            serial: kani::any(), result: QueryIntrospectionResult::Unavailable });
+        assert!(r.is_err() && log_len() == 0 && bus_is_empty(&w));
+        std::mem::forget(w);
+    }
+
+    /// A message from a connection the broker does not (or no longer) know is ignored by every
+    /// gated handler.
+    #[kani::proof]
+    #[kani::unwind(18)]
+    fn q_c11_gated_handlers_ignore_unknown_sender() {
+        let mut w = gate_world();
+        assert!(w.b.call_function2(&mut w.st, &conn(1), CallFunction2 { serial: 1, service_cookie: svc_cookie(0), function: 0, version: None, value: small_value() }).is_ok());
+        assert!(w.b.abort_function_call(&mut w.st, &conn(1), AbortFunctionCall { serial: 1 }).is_ok());
+        assert!(w.b.query_service_info(&conn(1), QueryServiceInfo { serial: 1, cookie: svc_cookie(0) }).is_ok());
+        assert!(w.b.subscribe_service(&conn(1), SubscribeService { serial: 1, service_cookie: svc_cookie(0) }).is_ok());
+        assert!(w.b.unsubscribe_all_events(&conn(1), UnsubscribeAllEvents { serial: None, service_cookie: svc_cookie(0) }).is_ok());
+        assert!(log_len() == 0 && bus_is_empty(&w));
+        std::mem::forget(w);
+    }
+
+    #[cfg(verif_replay)]
+    include!("/verif/.cache/replay/broker__verif__gates.rs");
+}
+
+// =================================================================================================
+// C02: calls - routing, reply acceptance, abort
+// =================================================================================================
+
+#[derive(Clone, Copy)]
+pub(crate) struct CallSpec {
+    pub present: bool,
+    pub serial: u32,
+    pub caller: u8,
+    pub caller_serial: u32,
+    pub aborted: bool,
+}
+
+pub(crate) struct CallWorld {
+    pub w: World,
+    pub owner: u8,
+    pub a: CallSpec,
+    pub b: CallSpec,
+}
+
+fn any_call_spec() -> CallSpec {
+    CallSpec {
+        present: kani::any(),
+        serial: kani::any(),
+        caller: any_below(2),
+        caller_serial: kani::any(),
+        aborted: kani::any(),
+    }
+}
+
+fn install_call(w: &mut World, c: &CallSpec, owner: u8) {
+    if !c.present {
+        return;
+    }
+    smv::elems_mut(&mut w.b.function_calls).insert(
+        c.serial,
+        PendingFunctionCall {
+            caller_serial: c.caller_serial,
+            caller_conn_id: conn(c.caller),
+            callee_obj: obj_uuid(0),
+            callee_svc: svc_uuid(0),
+            aborted: c.aborted,
+        },
+    );
+    svv::function_calls_mut(w.b.svcs.get_mut(&(obj_uuid(0), svc_uuid(0))).unwrap()).insert(c.serial);
+    if !c.aborted {
+        csv::calls_mut(w.b.conns.get_mut(&conn(c.caller)).unwrap()).insert(c.caller_serial, (c.serial, conn(owner)));
+    }
+}
+
+/// Connections 0 and 1 (fits CAP = 2; caller, owner and "somebody else" alias in every possible
+/// way over the two); object (uuid 0, cookie 10) owned by `owner`, service (uuid 0, cookie 20);
+/// up to two pending calls A, B with arbitrary broker serials, callers, caller serials and aborted
+/// flags, consistent with `Inv_calls`: distinct broker serials; a non-aborted call is referenced
+/// from its caller's `calls` under its caller serial (so two non-aborted calls of one caller have
+/// different caller serials); an aborted call has no back-reference - in particular an aborted
+/// call may share its caller serial with a later, active call of the same caller (serial reuse).
+pub(crate) fn call_world() -> CallWorld {
+    let mut w = new_world();
+    add_conn(&mut w, 0);
+    add_conn(&mut w, 1);
+    let owner = any_below(2);
+    add_object(&mut w, 0, 10, owner);
+    add_service(&mut w, 0, 10, 0, 20, ServiceInfo::new(1));
+    let a = any_call_spec();
+    let b = any_call_spec();
+    kani::assume(!(a.present && b.present) || a.serial != b.serial);
+    kani::assume(!(a.present && b.present && !a.aborted && !b.aborted && a.caller == b.caller) || a.caller_serial != b.caller_serial);
+    install_call(&mut w, &a, owner);
+    install_call(&mut w, &b, owner);
+    smv::set_next(&mut w.b.function_calls, kani::any());
+    set_fresh(0xf0);
+    CallWorld { w, owner, a, b }
+}
+
+pub(crate) fn call_pending(w: &World, serial: u32) -> Option<(u32, u8, bool)> {
+    smv::elems(&w.b.function_calls).get(&serial).map(|c| (c.caller_serial, c.caller_conn_id.0, c.aborted))
+}
+
+pub(crate) fn backref(w: &World, caller: u8, caller_serial: u32) -> Option<(u32, u8)> {
+    w.b.conns.get(&conn(caller)).and_then(|c| csv::calls(c).get(&caller_serial).map(|(s, id)| (*s, id.0)))
+}
+
+fn spec_state_unchanged(cw: &CallWorld, c: &CallSpec) -> bool {
+    if !c.present {
+        return true;
+    }
+    call_pending(&cw.w, c.serial) == Some((c.caller_serial, c.caller, c.aborted))
+        && (c.aborted || backref(&cw.w, c.caller, c.caller_serial) == Some((c.serial, cw.owner)))
+}
+
+#[cfg(any(verif_unit = "all", verif_unit = "calls", verif_unit = "calls_t"))]
+mod calls {
+    use super::*;
+
+    /// Reply acceptance: only the owner's reply to a pending, non-aborted call is delivered - once,
+    /// to the caller, under the caller's serial, result unchanged; everything else is dropped
+    /// without touching other calls (in particular a stale reply to an aborted call whose caller
+    /// serial has been reused).
+    #[kani::proof]
+    #[kani::unwind(18)]
+    fn q_c02_c11_call_function_reply() {
+        let mut cw = call_world();
+        let who = any_below(2);
+        let serial: u32 = kani::any();
+        let hit_a = cw.a.present && cw.a.serial == serial;
+        let hit_b = cw.b.present && cw.b.serial == serial;
+        let target = if hit_a { Some(cw.a) } else if hit_b { Some(cw.b) } else { None };
+        let other = if hit_a { cw.b } else { cw.a };
+        let res_tag: u8 = kani::any();
+        let result = match res_tag % 3 {
+            0 => CallFunctionResult::Ok(small_value()),
+            1 => CallFunctionResult::InvalidFunction,
+            _ => CallFunctionResult::InvalidArgs,
+        };
+        cw.w.b.call_function_reply(&mut cw.w.st, &conn(who), CallFunctionReply { serial, result });
+        match target {
+            None => {
+                assert!(log_len() == 0, "a reply for an unknown serial is dropped");
+                assert!(spec_state_unchanged(&cw, &cw.a) && spec_state_unchanged(&cw, &cw.b));
+            }
+            Some(t) if who != cw.owner => {
+                assert!(log_len() == 0, "a reply from anyone but the service owner is dropped");
+                assert!(spec_state_unchanged(&cw, &cw.a) && spec_state_unchanged(&cw, &cw.b));
+            }
+            Some(t) => {
+                assert!(call_pending(&cw.w, serial).is_none(), "the pending entry is consumed: a second reply finds nothing");
+                assert!(!svv::function_calls(cw.w.b.svcs.get(&(obj_uuid(0), svc_uuid(0))).unwrap()).contains(&serial));
+                if t.aborted {
+                    assert!(log_len() == 0, "a reply after an abort is never delivered");
+                } else {
+                    let expect = if send_fails(t.caller) { 0 } else { 1 };
+                    assert!(log_len() == expect);
+                    if expect == 1 {
+                        assert!(log(0).to == t.caller, "the reply goes to the caller");
+                        let Message::CallFunctionReply(rep) = &log(0).msg else { panic!("wrong message kind") };
+                        assert!(rep.serial == t.caller_serial, "under the caller's own serial");
+                        let same = match (&rep.result, res_tag % 3) {
+                            (CallFunctionResult::Ok(v), 0) => v.len() == 2,
+                            (CallFunctionResult::InvalidFunction, 1) => true,
+                            (CallFunctionResult::InvalidArgs, 2) => true,
+                            _ => false,
+                        };
+                        assert!(same, "with the owner's result unchanged");
+                        assert!(log(0).version == Some(version_of(&cw.w, who)), "payload tagged with the replier's version");
+                    }
+                    assert!(backref(&cw.w, t.caller, t.caller_serial).is_none(), "the caller's tracking entry is gone");
+                }
+                // the other call is untouched, whatever serials it shares with this one
+                assert!(spec_state_unchanged(&cw, &other), "other pending calls are not affected");
+            }
+        }
+        kani::cover!(target.is_some() && who == cw.owner && log_len() == 1);
+        kani::cover!(hit_a && cw.a.aborted && cw.b.present && !cw.b.aborted && cw.b.caller == cw.a.caller && cw.b.caller_serial == cw.a.caller_serial && who == cw.owner);
+        std::mem::forget(cw);
+    }
+
+    /// Abort by the caller: exactly one `Aborted` reply under the caller's serial, the entry is
+    /// marked aborted and the back-reference removed; the owner is told iff it speaks >= 1.16.
+    #[kani::proof]
+    #[kani::unwind(18)]
+    fn q_c02_c11_abort_call() {
+        let mut cw = call_world();
+        let who = any_below(2);
+        let caller_serial: u32 = kani::any();
+        let minor = minor_of(&cw.w, who);
+        let tracked = backref(&cw.w, who, caller_serial);
+        let r = cw.w.b.abort_function_call(&mut cw.w.st, &conn(who), AbortFunctionCall { serial: caller_serial });
+        if minor < 16 {
+            assert!(r.is_err() && log_len() == 0);
+            assert!(spec_state_unchanged(&cw, &cw.a) && spec_state_unchanged(&cw, &cw.b));
+        } else {
+            assert!(r.is_ok() && log_len() == 0, "the abort itself is deferred");
+            let q = stv::abort_function_calls(&cw.w.st);
+            match tracked {
+                None => assert!(q.is_empty(), "aborting an unknown serial does nothing"),
+                Some((s, callee)) => {
+                    assert!(q.len() == 1 && q[0].0 == s && q[0].1 == conn(callee));
+                    // the deferred step
+                    let owner_minor = minor_of(&cw.w, cw.owner);
+                    cw.w.b.abort_call(&mut cw.w.st, s, conn(callee));
+                    assert!(call_pending(&cw.w, s) == Some((caller_serial, who, true)), "entry stays, marked aborted");
+                    assert!(backref(&cw.w, who, caller_serial).is_none());
+                    let to_caller = count_kind_to(who, |m| matches!(m, Message::CallFunctionReply(rep) if rep.serial == caller_serial && rep.result == CallFunctionResult::Aborted));
+                    assert!(to_caller == if send_fails(who) { 0 } else { 1 }, "exactly one Aborted reply to the caller");
+                    let to_owner = count_kind_to(callee, |m| matches!(m, Message::AbortFunctionCall(a) if a.serial == s));
+                    assert!(to_owner == if owner_minor >= 16 && !send_fails(callee) { 1 } else { 0 }, "owner told iff it speaks >= 1.16");
+                    // aborting again changes nothing and sends nothing more
+                    let n = log_len();
+                    cw.w.b.abort_call(&mut cw.w.st, s, conn(callee));
+                    assert!(log_len() == n);
+                }
+            }
+        }
+        kani::cover!(minor >= 16 && tracked.is_some());
+        std::mem::forget(cw);
+    }
+
+    #[cfg(verif_replay)]
+    include!("/verif/.cache/replay/broker__verif__calls.rs");
+}
+
+// =================================================================================================
+// C04: event subscriptions and fan-out
+// =================================================================================================
+
+pub(crate) struct EventWorld {
+    pub w: World,
+    pub owner: u8,
+    /// sub[c][e]: connection c subscribed to event e (e in {0,1}); all[c]: subscribed to all events
+    pub sub: [[bool; 2]; 3],
+    pub all: [bool; 3],
+}
+
+/// Connections 0, 1, 2; object (0, 10) owned by `owner`, service (0, 20) that supports
+/// subscribe-all; an arbitrary set of event / all-events subscriptions, mirrored between the
+/// service and the subscribers' connection states.
+pub(crate) fn event_world() -> EventWorld {
+    let mut w = new_world();
+    add_conn(&mut w, 0);
+    add_conn(&mut w, 1);
+    add_conn(&mut w, 2);
+    let owner = any_below(2);
+    add_object(&mut w, 0, 10, owner);
+    add_service(&mut w, 0, 10, 0, 20, ServiceInfo::new(1).set_subscribe_all(true));
+    let mut sub = [[false; 2]; 3];
+    let mut all = [false; 3];
+    let mut c = 0u8;
+    while c < 3 {
+        let mut e = 0u32;
+        while e < 2 {
+            if kani::any() {
+                sub[c as usize][e as usize] = true;
+                w.b.svcs.get_mut(&(obj_uuid(0), svc_uuid(0))).unwrap().subscribe_event(e, conn(c));
+                w.b.conns.get_mut(&conn(c)).unwrap().subscribe_event(svc_cookie(20), e);
+            }
+            e += 1;
+        }
+        if kani::any() {
+            all[c as usize] = true;
+            w.b.svcs.get_mut(&(obj_uuid(0), svc_uuid(0))).unwrap().subscribe_all_events(conn(c));
+            w.b.conns.get_mut(&conn(c)).unwrap().subscribe_all_events(svc_cookie(20));
+        }
+        c += 1;
+    }
+    set_fresh(0xf0);
+    EventWorld { w, owner, sub, all }
+}
+
+fn n_subs(ew: &EventWorld, e: usize) -> usize {
+    (ew.sub[0][e] as usize) + (ew.sub[1][e] as usize) + (ew.sub[2][e] as usize)
+}
+
+fn svc_has_sub(w: &World, e: u32, c: u8) -> bool {
+    svv::events(w.b.svcs.get(&(obj_uuid(0), svc_uuid(0))).unwrap()).get(&e).map(|s| s.contains(&conn(c))).unwrap_or(false)
+}
+
+fn conn_has_sub(w: &World, e: u32, c: u8) -> bool {
+    csv::events(w.b.conns.get(&conn(c)).unwrap()).get(&svc_cookie(20)).map(|s| s.contains(&e)).unwrap_or(false)
+}
+
+#[cfg(any(verif_unit = "all", verif_unit = "events", verif_unit = "events_t"))]
+mod events {
+    use super::*;
+
+    /// Fan-out: an event emitted by the owner reaches exactly the connections subscribed to that
+    /// event id or to all events, once each, payload unchanged; a non-owner's emit is dropped.
+    #[kani::proof]
+    #[kani::unwind(18)]
+    fn q_c04_c11_emit_event() {
+        let mut ew = event_world();
+        let who = any_conn_tag();
+        let e = any_below(2) as u32;
+        let known = kani::any();
+        let cookie = if known { svc_cookie(20) } else { svc_cookie(21) };
+        ew.w.b.emit_event(&mut ew.w.st, &conn(who), EmitEvent { service_cookie: cookie, event: e, value: small_value() });
+        if !known || who != ew.owner {
+            assert!(log_len() == 0, "events of unknown services or from non-owners are dropped");
+        } else {
+            let mut c = 0u8;
+            while c < 3 {
+                let subscribed = ew.sub[c as usize][e as usize] || ew.all[c as usize];
+                let got = count_kind_to(c, |m| matches!(m, Message::EmitEvent(ev) if ev.service_cookie == svc_cookie(20) && ev.event == e && ev.value.len() == 2));
+                let expect = if subscribed && !send_fails(c) { 1 } else { 0 };
+                assert!(got == expect, "delivered exactly once to each subscribed connection and to nobody else");
+                assert!(log_count_to(c) == got, "nothing else is sent");
+                c += 1;
+            }
+        }
+        kani::cover!(known && who == ew.owner && log_len() == 3);
+        kani::cover!(known && who == ew.owner && log_len() == 0);
+        std::mem::forget(ew);
+    }
+
+    /// Subscribe: one reply; the owner is asked to start producing iff this is the 0 -> 1 transition.
+    #[kani::proof]
+    #[kani::unwind(18)]
+    fn q_c04_c11_subscribe_event() {
+        let mut ew = event_world();
+        let who = any_conn_tag();
+        set_send_fails(who, false);
+        let e = any_below(2) as u32;
+        let serial: u32 = kani::any();
+        let known = kani::any();
+        let cookie = if known { svc_cookie(20) } else { svc_cookie(21) };
+        let n0 = n_subs(&ew, e as usize);
+        kani::assume(n0 < 3 || ew.sub[who as usize][e as usize]);
+        let r = ew.w.b.subscribe_event(&conn(who), SubscribeEvent { serial: Some(serial), service_cookie: cookie, event: e });
+        assert!(r.is_ok());
+        let replies = count_kind_to(who, |m| matches!(m, Message::SubscribeEventReply(rep) if rep.serial == serial));
+        assert!(replies == 1, "exactly one reply");
+        if !known {
+            assert!(log_len() == 1);
+            assert!(matches!(&log(0).msg, Message::SubscribeEventReply(rep) if rep.result == SubscribeEventResult::InvalidService));
+        } else {
+            assert!(svc_has_sub(&ew.w, e, who) && conn_has_sub(&ew.w, e, who), "recorded on both sides");
+            let asked = count_kind_to(ew.owner, |m| matches!(m, Message::SubscribeEvent(req) if req.serial.is_none() && req.event == e && req.service_cookie == svc_cookie(20)));
+            let first = n0 == 0;
+            assert!(asked == if first && !send_fails(ew.owner) { 1 } else { 0 }, "owner told to start exactly on the 0 -> 1 transition");
+        }
+        kani::cover!(known && n0 == 0);
+        kani::cover!(known && n0 > 0);
+        std::mem::forget(ew);
+    }
+
+    /// Unsubscribe: the owner is told to stop iff this removes the last subscriber.
+    #[kani::proof]
+    #[kani::unwind(18)]
+    fn q_c04_c11_unsubscribe_event() {
+        let mut ew = event_world();
+        let who = any_conn_tag();
+        let e = any_below(2) as u32;
+        let known = kani::any();
+        let cookie = if known { svc_cookie(20) } else { svc_cookie(21) };
+        let n0 = n_subs(&ew, e as usize);
+        let was = ew.sub[who as usize][e as usize];
+        ew.w.b.unsubscribe_event(&mut ew.w.st, &conn(who), UnsubscribeEvent { service_cookie: cookie, event: e });
+        if !known {
+            assert!(log_len() == 0);
+        } else {
+            assert!(!svc_has_sub(&ew.w, e, who) && !conn_has_sub(&ew.w, e, who));
+            let told = count_kind_to(ew.owner, |m| matches!(m, Message::UnsubscribeEvent(req) if req.event == e && req.service_cookie == svc_cookie(20)));
+            let last = was && n0 == 1;
+            assert!(told == if last && !send_fails(ew.owner) { 1 } else { 0 }, "owner told to stop exactly on the 1 -> 0 transition");
+            assert!(log_len() == told);
+            // other subscribers keep their subscription
+            let o = any_conn_tag();
+            if o != who {
+                assert!(svc_has_sub(&ew.w, e, o) == ew.sub[o as usize][e as usize]);
+            }
+        }
+        kani::cover!(known && was && n0 == 1);
+        kani::cover!(known && was && n0 > 1);
+        std::mem::forget(ew);
+    }
+
+    #[cfg(verif_replay)]
+    include!("/verif/.cache/replay/broker__verif__events.rs");
 }
